@@ -44,7 +44,7 @@ PROPS["C14"] = {
              "manner (client shutdown, carrier reset, garbage frame, partition until the multiplexer keep-alive gives up, or not at all) and compares with idle; "
              "footprint = goroutines of the bubble grouped by creation site (harness excluded) + open simulated sockets/listeners; non-trivial = both batches "
              "completed; distinct = schedule shapes"),
-    "probes": ["logical_connections", "refused_connections", "silent_peers", "session_end_checked", "fault_carrier_reset", "fault_carrier_timeout", "fault_partition", "fault_garbage_frame", "end_client_shutdown", "end_server_closes"],
+    "probes": ["logical_connections", "refused_connections", "silent_peers", "runs_with_scheduling_points", "session_end_checked", "fault_carrier_reset", "fault_carrier_timeout", "fault_partition", "fault_garbage_frame", "end_client_shutdown", "end_server_closes"],
     "technique": "deterministic simulation: histories of N and 2N connections and fault-ended sessions, resource-ledger oracle + busy-loop detector",
     "level_text": ("Seeded exploration of connection histories and session endings. The oracle is a resource ledger taken at quiescent points after a drain of 150 "
                    "simulated seconds: constant (not linear) in the number of past connections, back to idle after the session ended, and no goroutine that emits "
@@ -77,7 +77,7 @@ PROPS["C03"] = {
     "rule": ("each run generates a channel table of 1-5 names from a confusable alphabet (a, ab, a/b, A, 'a ', empty, long, non-ASCII ...), each bound to its own recording target, "
              "an endpoint allow-list (none or a subset; for websocket servers a second path with its own list), and 1-6 requests (configured, unlisted, unknown, prefix/extension/"
              "case variants, empty) issued concurrently over one session on a drawn server kind; non-trivial = every request was judged against the routing model; distinct = schedule shapes"),
-    "probes": ["routed_ok", "refusals_observed"],
+    "probes": ["routed_ok", "refusals_observed", "requests_made_together"],
     "technique": "deterministic simulation: generated channel tables/allow-lists/requests, concurrent requests, 10-line routing reference model vs target accept logs",
     "level_text": ("Seeded exploration against a reference routing function (exact, case-sensitive match within the endpoint's filtered list): each request must reach exactly the predicted "
                    "target (identified by PRF stream content, so a wrong target is named) or be refused with end-of-stream/reset and no data; every target's accept count must equal the predicted multiset."),
